@@ -26,6 +26,6 @@ def run(rep, tier, seed):
     D.run_contracts(rep, "C06", D.binners(), tier, also=("C16",))
     D.run_contracts(rep, "C06", D.relational(), tier)
     D.run_contracts(rep, "C06", D.adaptors(), tier)
-    D.run_static(rep, "C06", ("purity",))      # every per-call contract presupposes that results are functions of the arguments
+    D.run_static(rep, "C06", ("purity", "interface"))      # every per-call contract presupposes that results are functions of the arguments
     t3(rep, tier, seed)
     D.link_falsifier(rep)
